@@ -37,7 +37,7 @@ ASSUMPTIONS = [
 ANCHORS = ["builder.<locals>._copy", "QueryBuilder.__copy__", "PostgreSQLQueryBuilder.__copy__", "QueryBuilder.where",
            "QueryBuilder.rollup", "Case.when", "AnalyticFunction.over", "_SetOperation.union", "CreateQueryBuilder.columns"]
 WORKERS = {"quick": 16, "thorough": 16}
-WATCHDOG = {"quick": 900, "thorough": 3300}
+WATCHDOG = {"quick": 900, "thorough": 5000}
 
 
 def cases(tier, seed, shard, nshards):
@@ -64,7 +64,7 @@ def cases(tier, seed, shard, nshards):
             if k % nshards == shard:
                 yield {"k": "pair", "d": d, "spec": spec, "chain": False}
                 rewriter = spec[3].startswith(("replace-", "copy", "as-q"))
-                if (tier != "quick" or k % 7 == 0 or (rewriter and own)) and spec[2] not in ("render", "str", "hash"):
+                if ((tier != "quick" and k % 2 == 0) or k % 7 == 0 or (rewriter and own)) and spec[2] not in ("render", "str", "hash"):
                     # (A's result is the receiver of B here, so A must return a builder: str.join(Table) would iterate forever)
                     yield {"k": "pair", "d": d, "spec": spec, "chain": True}
     # the builder calls every term class inherits (as_, replace_table, negate ...) on one object per class of the zoo, on leaf
